@@ -204,6 +204,199 @@ def attach(rec, what=('links', 'sets', 'ids')):
             if mname in tools.OrderedSet.__dict__:
                 wrap_mutator(tools.OrderedSet, mname)
 
+    if 'queries' in what:
+        # C09 under the repository's own workloads: every selection from a class and every navigation chain is answered a
+        # second time by a naive evaluation (list comprehensions over the pool, relational composition over the link
+        # tables, an insertion sort) and compared element by element. Predicates are called once only (by the library):
+        # their verdict per instance is recorded and replayed, because a where clause may run OAL with effects.
+        import collections
+
+        class Unknown(Exception):
+            pass
+
+        def recording(op, memo):
+            def pred(x):
+                r = op(x)
+                memo[id(x)] = bool(r)
+                return r
+            return pred
+
+        def prepare(args):
+            ops, memos = [], []
+            for op in args:
+                if isinstance(op, (dict, meta.OrderBy)) or not callable(op):
+                    ops.append(op)
+                    memos.append(None)
+                else:
+                    memo = {}
+                    ops.append(recording(op, memo))
+                    memos.append(memo)
+            return ops, memos
+
+        def insertion_sort(seq, names, reverse):
+            out = []
+            for x in seq:
+                k = [getattr(x, n) for n in names]
+                i = len(out)
+                while i > 0:
+                    kp = out[i - 1][0]
+                    if (kp < k) if reverse else (k < kp):
+                        i -= 1
+                    else:
+                        break
+                out.insert(i, (k, x))
+            return [x for _, x in out]
+
+        def naive(seq, args, memos, first_only=False):
+            seq = list(seq)
+            for op, memo in zip(args, memos):
+                if isinstance(op, meta.OrderBy):
+                    seq = insertion_sort(seq, list(op), op.reverse)
+                elif isinstance(op, dict):
+                    seq = [x for x in seq if all(getattr(x, k) == v for k, v in op.items())]
+                else:
+                    out = []
+                    for x in seq:
+                        if id(x) not in memo:
+                            if first_only and out:
+                                break       # a lazy evaluation need not have looked further
+                            raise Unknown()
+                        if memo[id(x)]:
+                            out.append(x)
+                    seq = out
+            res = []
+            seen = set()
+            for x in seq:
+                if id(x) not in seen:
+                    seen.add(id(x))
+                    res.append(x)
+            return res
+
+        def same(a, b):
+            return len(a) == len(b) and all(x is y for x, y in zip(a, b))
+
+        def names(seq):
+            return [x.__class__.__name__ for x in seq][:8]
+
+        def wrap_select(mname, one):
+            orig = getattr(meta.MetaClass, mname)
+
+            def monitored(self, *args):
+                pool = list(self.storage)
+                ops, memos = prepare(args)
+                res = orig(self, *ops)
+                if len(self.storage) != len(pool):
+                    return res
+                try:
+                    want = naive(pool, args, memos, first_only=one)
+                except Unknown:
+                    rec.hit('QueryRef.ambient-not-decidable')
+                    return res
+                except Exception:
+                    rec.hit('QueryRef.ambient-naive-evaluation-failed')
+                    return res
+                rec.hit('QueryRef.ambient-select')
+                if one:
+                    if res is not (want[0] if want else None):
+                        rec.problem('ambient/select-one', '%s.%s: the library gave %r, the first of the naive evaluation '
+                                    'is %r (pool of %d)' % (self.kind, mname, res, want[:1], len(pool)))
+                else:
+                    got = list(res)
+                    if not same(got, want):
+                        rec.problem('ambient/select-many', '%s.%s with %d operator(s): %d instances, the naive evaluation '
+                                    'gives %d (or another order)' % (self.kind, mname, len(args), len(got), len(want)))
+                    if want:
+                        rec.hit('QueryRef.ambient-select-non-empty')
+                return res
+            monitored.__name__ = mname
+            setattr(meta.MetaClass, mname, monitored)
+            undo.append((meta.MetaClass, mname, orig))
+
+        wrap_select('select_many', False)
+        wrap_select('select_one', True)
+
+        def partners(inst, kind, rel_id, phrase):
+            '''the instances of *kind* linked to inst across rel_id / phrase, from the link tables'''
+            mc = meta.get_metaclass(inst)
+            if isinstance(rel_id, int):
+                rel_id = 'R%d' % rel_id
+            key = (kind.upper(), rel_id, phrase)
+            if key in mc.links:
+                return list(mc.links[key].get(inst, ()))
+            out = []
+            for (k1, r1, p1), link1 in mc.links.items():
+                if r1 != rel_id or p1 != phrase:
+                    continue
+                mid_mc = mc.metamodel.find_metaclass(link1.kind)
+                if key in mid_mc.links:
+                    for mid in link1.get(inst, ()):
+                        out.extend(mid_mc.links[key].get(mid, ()))
+                    return out
+            raise Unknown()
+
+        orig_init = meta.NavChain.__init__
+        orig_nav = meta.NavChain.nav
+
+        def nav_init(self, handle):
+            if handle is not None and not isinstance(handle, meta.Class) and isinstance(handle, collections.abc.Iterable):
+                handle = list(handle)
+            orig_init(self, handle)
+            self.__dict__['_vf_start'] = list(self.handle)
+            self.__dict__['_vf_steps'] = []
+
+        def nav_nav(self, kind, relid, phrase=''):
+            self.__dict__.setdefault('_vf_steps', []).append((kind, relid, phrase))
+            return orig_nav(self, kind, relid, phrase)
+        meta.NavChain.__init__ = nav_init
+        meta.NavChain.nav = nav_nav
+        undo.append((meta.NavChain, '__init__', orig_init))
+        undo.append((meta.NavChain, 'nav', orig_nav))
+
+        def wrap_chain(cls, one):
+            orig = cls.__dict__['__call__']
+
+            def monitored(self, *args):
+                start = self.__dict__.get('_vf_start')
+                steps = list(self.__dict__.get('_vf_steps', ()))
+                ops, memos = prepare(args)
+                res = orig(self, *ops)
+                if start is None:
+                    return res
+                try:
+                    cur = list(start)
+                    for kind, relid, phrase in steps:
+                        nxt = []
+                        for x in cur:
+                            nxt.extend(partners(x, kind, relid, phrase))
+                        cur = nxt
+                    want = naive(cur, args, memos, first_only=one)
+                except Unknown:
+                    rec.hit('QueryRef.ambient-not-decidable')
+                    return res
+                except Exception:
+                    rec.hit('QueryRef.ambient-naive-evaluation-failed')
+                    return res
+                rec.hit('QueryRef.ambient-navigation')
+                if len(steps) > 1:
+                    rec.hit('QueryRef.ambient-navigation-of-several-steps')
+                if one:
+                    if res is not (want[0] if want else None):
+                        rec.problem('ambient/navigate-one', 'chain %r from %r: the library gave %r, the composition of '
+                                    'the link tables starts with %r' % (steps, names(start), res, want[:1]))
+                else:
+                    got = list(res)
+                    if not same(got, want):
+                        rec.problem('ambient/navigate-many', 'chain %r from %r: %d instances, the composition of the link '
+                                    'tables gives %d (or another order)' % (steps, names(start), len(got), len(want)))
+                    if len(want) > 1:
+                        rec.hit('QueryRef.ambient-navigation-to-several')
+                return res
+            cls.__call__ = monitored
+            undo.append((cls, '__call__', orig))
+
+        wrap_chain(meta.NavChain, False)
+        wrap_chain(meta.NavOneChain, True)
+
     if 'ids' in what:
         orig_default = meta.MetaClass.default_value
         seen = {}
